@@ -154,6 +154,20 @@ def run(ctx):
                 unexpl.append(({"name": "message", "value": line}, "header section %d holds a name twice: %r" % (k, [n.decode("latin-1") for n in names])))
         if [l.split(b":")[0].lower() for l in sections[0].split(b"\r\n")].count(b"date") != 1:
             unexpl.append(({"name": "message", "value": line}, "the built message does not have exactly one Date field"))
+    # a disposition read back through the typed reader and set on another part (forwarding / copying an attachment): still one field,
+    # and the RFC 2231 reader still recovers the file name
+    cnames = ["a.txt", "report.pdf\";\r\nX-Injected: yes", "a\"; size=3", "x\";\r\n\r\nbody", "semi;colon\"quote", "caf\u00e9 \"; filename=\"other", "tab\t\";\x00", "n\";\nbare", "plain name.txt", "\";", "q\"", "\\\";x"]
+    cl2 = ["hdr.cdisp_copy\t%s\t%s" % (k, hx(U(n))) for k in ("attachment", "inline") for n in cnames]
+    ci2 = run_impl(cl2)
+    ctx.count(len(cl2))
+    okc = [(l, unhx(r.split("\t")[1])) for l, r in zip(cl2, ci2) if r.startswith("ok\t")]
+    for (l, blk), dec in zip(okc, run_model(["spec.decode_disposition\t" + hx(b.split(b":", 1)[1].strip(b" ").rstrip(b"\r\n")) for _, b in okc])):
+        want_name = unhx(l.split("\t")[2])
+        fields = [x for x in blk.split(b"\r\n") if x and not x.startswith((b" ", b"\t"))]
+        if len(fields) != 1 or not blk.endswith(b"\r\n") or b"\r\n\r\n" in blk or any(c in blk.replace(b"\r\n", b"") for c in (b"\r", b"\n", b"\0")):
+            unexpl.append(({"name": "Content-Disposition", "value": l}, "a disposition copied through the typed reader does not come out as one clean field: %r" % blk[:120]))
+        elif dec != "some\t%s\t%s" % (hx(U(l.split("\t")[1])), hx(want_name)):
+            unexpl.append(({"name": "Content-Disposition", "value": l}, "a disposition copied through the typed reader no longer carries its file name: the RFC 2231 reader recovers %s" % dec[:100]))
     # one field per name, whatever the letter case of later set calls (header map operations)
     hn = ["Subject", "subject", "SUBJECT", "sUBJECT", "X-Priority", "x-priority", "X-priority", "Date", "date", "Message-ID", "Message-Id"]
     ol = []
